@@ -241,3 +241,168 @@ Proof.
   - inversion H; subst; clear H. ie (@nil instr).
   - inversion H; subst; clear H. ie (@nil instr).
 Qed.
+
+(** ** the monitor relation *)
+Lemma m12_b_step : forall m te, m12_b (m12_step m te) = mb_step (m12_b m) te.
+Proof.
+  intros m [t e]. unfold m12_step. destruct e; try reflexivity.
+  - destruct c; reflexivity.
+  - destruct (get_tid t (b_cur (m12_b m))) as [c|]; [|reflexivity]. destruct c; try reflexivity; destruct v; reflexivity.
+  - destruct h; reflexivity.
+Qed.
+Lemma m12_b_fold : forall tr m, m12_b (fold_left m12_step tr m) = fold_left mb_step tr (m12_b m).
+Proof. induction tr as [|te tr IH]; intro m; [reflexivity|]. cbn [fold_left]. rewrite IH, m12_b_step. reflexivity. Qed.
+
+Record m12_same (m m' : m12) : Prop := {
+  ds_begun : m12_begun m' = m12_begun m; ds_done : m12_done m' = m12_done m;
+  ds_dead : m12_dead m' = m12_dead m; ds_bad : m12_bad m' = m12_bad m }.
+Lemma m12_same_refl : forall m, m12_same m m.
+Proof. intro m. constructor; reflexivity. Qed.
+Lemma m12_same_trans : forall a b c, m12_same a b -> m12_same b c -> m12_same a c.
+Proof. intros a b c [] []. constructor; congruence. Qed.
+
+Definition c12_plain (e : wevent) : Prop :=
+  match e with ECmd _ | ERet _ => False | EHandler (HPlain _) _ => False | _ => True end.
+Lemma m12_plain_step : forall m t e, c12_plain e -> m12_same m (m12_step m (t, e)).
+Proof. intros m t e H. destruct e; cbn in H; try contradiction; try (constructor; reflexivity). destruct h; try contradiction; constructor; reflexivity. Qed.
+Lemma m12_plain_fold : forall t ev m, (forall e, In e ev -> c12_plain e) -> m12_same m (fold_left m12_step (evs t ev) m).
+Proof.
+  induction ev as [|e ev IH]; intros m H; [apply m12_same_refl|]. cbn [evs map fold_left]. fold (evs t ev).
+  eapply m12_same_trans; [apply (m12_plain_step m t e); apply H; left; reflexivity|]. apply IH. intros; apply H; right; auto.
+Qed.
+
+Inductive dpend := DNone | DBad (t : tid) (w : Z).
+Definition dbegun (p : dpend) (m : m12) : list Z := match p with DBad _ _ => tl (m12_begun m) | DNone => m12_begun m end.
+
+Definition prog (st : wstate) (m : m12) (w : Z) : Prop :=
+  memZ w (m12_dead m) = true \/
+  (exists x, In x (pipeline st) /\ slab_get (sl st) x = Some (HPlain w)) \/
+  In (IYieldH (HPlain w) true) (tcont (thr st main)).
+
+Record DRel (p : dpend) (st : wstate) (m : m12) : Prop := {
+  d_bad : m12_bad m = false;
+  d_uniq : forall x y w, slab_get (sl st) x = Some (HPlain w) -> slab_get (sl st) y = Some (HPlain w) -> x = y;
+  d_used : forall x w, slab_get (sl st) x = Some (HPlain w) ->
+           (0 <= w < 1000000 /\ wused st w = true) \/ (1000000 <= w < 1000000 + nfill st);
+  d_nfill : 0 <= nfill st;
+  d_ypos : forall t i r0 j, tcont (thr st t) = i :: r0 -> In j r0 -> ~ is_yield j;
+  d_ymain : forall t j, t <> main -> In j (tcont (thr st t)) -> ~ is_yield j;
+  d_y : forall w d, In (IYieldH (HPlain w) d) (tcont (thr st main)) ->
+        memZ w (m12_dead m) = false /\
+        (d = true -> memZ w (dbegun p m) = true /\ (forall x, slab_get (sl st) x <> Some (HPlain w)) /\
+                     0 <= w < 1000000 /\ wused st w = true);
+  d_dead : forall w, memZ w (m12_dead m) = true ->
+           0 <= w < 1000000 /\ wused st w = true /\ forall x, slab_get (sl st) x <> Some (HPlain w);
+  d_push : forall t x w, In (x, HPlain w) (tpushes (thr st t)) ->
+           memZ w (dbegun p m) = true /\ 0 <= w < 1000000 /\ wused st w = true;
+  d_pipe : forall x w, In x (pipeline st) -> slab_get (sl st) x = Some (HPlain w) ->
+           memZ w (dbegun p m) = true /\ 0 <= w < 1000000 /\ wused st w = true;
+  d_done : forall w, memZ w (m12_done m) = true -> prog st m w;
+  d_cmd : forall t w, tcur (thr st t) = Some (CDropW w) ->
+          (p = DBad t w /\ exists old, m12_begun m = w :: old) \/
+          (p <> DBad t w /\ memZ w (dbegun p m) = true /\ tret (thr st t) = RUnit /\
+           (forall j, In j (tcont (thr st t)) -> dropw_ok j) /\
+           ((exists x, In (x, HPlain w) (pushes (tcont (thr st t)))) \/ prog st m w));
+  d_pbad : forall t w, p = DBad t w -> tcur (thr st t) = Some (CDropW w) /\ tcont (thr st t) = [] }.
+
+Lemma d_msame : forall p st m m', DRel p st m -> m12_same m m' -> DRel p st m'.
+Proof.
+  intros p st m m' R [M1 M2 M3 M4].
+  assert (Bg : dbegun p m' = dbegun p m) by (unfold dbegun; rewrite M1; reflexivity).
+  assert (Pg : forall w, prog st m' w <-> prog st m w) by (intro w; unfold prog; rewrite M3; tauto).
+  constructor; intros; rewrite ?M1, ?M2, ?M3, ?M4, ?Bg, ?Pg in *.
+  - apply (d_bad p st m R).
+  - eapply (d_uniq p st m R); eauto.
+  - eapply (d_used p st m R); eauto.
+  - apply (d_nfill p st m R).
+  - eapply (d_ypos p st m R); eauto.
+  - eapply (d_ymain p st m R); eauto.
+  - eapply (d_y p st m R); eauto.
+  - eapply (d_dead p st m R); eauto.
+  - eapply (d_push p st m R); eauto.
+  - eapply (d_pipe p st m R); eauto.
+  - eapply (d_done p st m R); eauto.
+  - eapply (d_cmd p st m R); eauto.
+  - eapply (d_pbad p st m R); eauto.
+Qed.
+
+Lemma tret_other : forall st st' t u i r ev,
+  CInv (core st) -> tcont (thr st t) = i :: r -> exec_instr st t i r = (st', ev) -> u <> t -> tret (thr st' u) = tret (thr st u).
+Proof.
+  intros st st' t u i r ev I Hc H Hu.
+  assert (G : (forall m v, i <> IUnlock m (URet v)) -> (forall m c x, i <> IUnlock m (UChPush c x)) -> tret (thr st' u) = tret (thr st u)).
+  { intros A B. apply (e_tret _ _ _ _ _ _ (exec_instr_eff _ _ _ _ _ _ I Hc H) A B). }
+  destruct i; try (apply G; intros; discriminate).
+  destruct a; try (apply G; intros; discriminate); cbn [exec_instr exec_uact] in H; inversion H; subst st' ev; clear H G;
+    cbn -[Nat.eqb]; unfold updN, th; cbn -[Nat.eqb]; unfold updN, th; destruct (Nat.eqb_spec u t); try congruence; reflexivity.
+Qed.
+
+Lemma tpushes_cons_cont : forall x i r, tcont x = i :: r -> tpushes x = push_of i ++ pushes r ++ pushes (tfinal x).
+Proof. intros x i r E. unfold tpushes. rewrite E, pushes_cons, <- app_assoc. reflexivity. Qed.
+
+Lemma in_push_of : forall i y h, In (y, h) (push_of i) -> exists m bm, i = ILock m (LPush y bm h).
+Proof.
+  intros i y h H. destruct i; cbn in H; try contradiction. destruct a; cbn in H; try contradiction.
+  destruct H as [E|[]]. inversion E; subst. eauto.
+Qed.
+
+(** a step that is not a call of a plain waker's handler: the monitor's own fields do not move *)
+Lemma d_state_step : forall st st' m t i r ev,
+  CInv (core st) -> SlInv st -> DRel DNone st m -> tcont (thr st t) = i :: r -> ieff st st' t i r ev ->
+  (forall u, u <> t -> tret (thr st' u) = tret (thr st u)) ->
+  (forall w d, i <> IYieldH (HPlain w) d) -> DRel DNone st' m.
+Proof.
+  intros st st' m t i r ev I S R Hc [F [new [Hc' [Hny [Hnp Hnd]]]] [Esl [Ewu [Enf _]]] Hpipe Htret _ _] Hto Hi.
+  destruct F as [Hn [Hf Ho]].
+  assert (Cur : forall u, tcur (thr st' u) = tcur (thr st u)) by (intro u; apply Hf).
+  assert (Fin : forall u, tfinal (thr st' u) = tfinal (thr st u)) by (intro u; apply Hf).
+  assert (Tp : forall u, u <> t -> tpushes (thr st' u) = tpushes (thr st u)).
+  { intros u Hu. unfold tpushes. rewrite (Ho u Hu), Fin. reflexivity. }
+  assert (TpNew : forall x w, In (x, HPlain w) (tpushes (thr st' t)) -> In (x, HPlain w) (tpushes (thr st t))).
+  { intros x w H. unfold tpushes in *. rewrite Hc', Fin, pushes_app in H. rewrite Hc, pushes_cons.
+    apply in_app_or in H. destruct H as [H|H]; [|apply in_or_app; right; exact H].
+    apply in_app_or in H. destruct H as [H|H]; [exfalso; exact (Hnp x w H)|]. apply in_or_app. left. apply in_or_app. right. exact H. }
+  assert (Claim : forall x h m0 bm, i = ILock m0 (LPush x bm h) -> slab_get (sl st) x = Some h).
+  { intros x h m0 bm E. apply (sl_claim st S). right; right. exists t. rewrite (tpushes_cons_cont _ _ _ Hc), E. left. reflexivity. }
+  assert (Yk : forall w d, In (IYieldH (HPlain w) d) (tcont (thr st' main)) -> In (IYieldH (HPlain w) d) (tcont (thr st main))).
+  { intros w d H. destruct (Nat.eq_dec main t) as [E|E]; [|rewrite (Ho main E) in H; exact H].
+    rewrite E in *. rewrite Hc' in H. rewrite Hc. apply in_app_or in H. destruct H as [H|H]; [exfalso; apply (Hny _ H); eexists; eexists; reflexivity|right; exact H]. }
+  assert (Yk2 : forall w d, In (IYieldH (HPlain w) d) (tcont (thr st main)) -> In (IYieldH (HPlain w) d) (tcont (thr st' main))).
+  { intros w d H. destruct (Nat.eq_dec main t) as [E|E]; [|rewrite (Ho main E); exact H].
+    rewrite E in *. rewrite Hc in H. rewrite Hc'. destruct H as [H|H]; [exfalso; eapply Hi; eauto|apply in_or_app; right; exact H]. }
+  assert (Pg : forall w, prog st m w -> prog st' m w).
+  { intros w [A|[[x [A B]]|A]]; [left; exact A|right; left; exists x; split; [apply Hpipe; left; exact A|rewrite Esl; exact B]|right; right; apply Yk2; exact A]. }
+  constructor.
+  - apply (d_bad _ st m R).
+  - intros x y w. rewrite Esl. apply (d_uniq _ st m R).
+  - intros x w. rewrite Esl, Ewu, Enf. apply (d_used _ st m R).
+  - rewrite Enf. apply (d_nfill _ st m R).
+  - intros u i0 r0 j Hk Hj. destruct (Nat.eq_dec u t) as [->|Hu]; [|rewrite (Ho u Hu) in Hk; apply (d_ypos _ st m R u i0 r0 j Hk Hj)].
+    rewrite Hc' in Hk. destruct new as [|n0 new'].
+    + cbn in Hk. apply (d_ypos _ st m R t i r j Hc). rewrite Hk. right. exact Hj.
+    + cbn in Hk. inversion Hk; subst. apply in_app_or in Hj. destruct Hj as [Hj|Hj]; [apply Hny; right; exact Hj|apply (d_ypos _ st m R t i r j Hc Hj)].
+  - intros u j Hu Hj. destruct (Nat.eq_dec u t) as [->|Hn0]; [|rewrite (Ho u Hn0) in Hj; apply (d_ymain _ st m R u j Hu Hj)].
+    rewrite Hc' in Hj. apply in_app_or in Hj. destruct Hj as [Hj|Hj]; [apply Hny; exact Hj|apply (d_ymain _ st m R t j Hu); rewrite Hc; right; exact Hj].
+  - intros w d H. rewrite Esl, Ewu. apply (d_y _ st m R w d). apply Yk. exact H.
+  - intros w H. rewrite Esl, Ewu. apply (d_dead _ st m R w H).
+  - intros u x w H. rewrite Ewu. destruct (Nat.eq_dec u t) as [->|Hu]; [apply (d_push _ st m R t x w); apply TpNew; exact H|].
+    rewrite (Tp u Hu) in H. apply (d_push _ st m R u x w H).
+  - intros x w Hin Hs. rewrite Esl in Hs. rewrite Ewu. apply Hpipe in Hin. destruct Hin as [Hin|[m0 [bm [h E]]]]; [apply (d_pipe _ st m R x w Hin Hs)|].
+    pose proof (Claim x h m0 bm E) as Cl. rewrite Cl in Hs. inversion Hs; subst h.
+    apply (d_push _ st m R t x w). rewrite (tpushes_cons_cont _ _ _ Hc), E. left. reflexivity.
+  - intros w H. apply Pg. apply (d_done _ st m R w H).
+  - intros u w. rewrite Cur. intro Hu. destruct (d_cmd _ st m R u w Hu) as [[D _]|[D1 [D2 [D3 [D4 D5]]]]]; [discriminate D|]. right.
+    split; [discriminate|]. split; [exact D2|].
+    destruct (Nat.eq_dec u t) as [->|Hn0].
+    + assert (Di : dropw_ok i) by (apply D4; rewrite Hc; left; reflexivity).
+      split; [|split].
+      * rewrite Htret; [exact D3| |]; intros; intro E; subst i; exact Di.
+      * intros j Hj. rewrite Hc' in Hj. apply in_app_or in Hj. destruct Hj as [Hj|Hj]; [apply Hnd; auto|apply D4; rewrite Hc; right; exact Hj].
+      * destruct D5 as [[x Hx]|D5]; [|right; apply Pg; exact D5].
+        rewrite Hc, pushes_cons in Hx. apply in_app_or in Hx. destruct Hx as [Hx|Hx].
+        -- right. right; left. exists x. apply in_push_of in Hx. destruct Hx as [m0 [bm E]].
+           split; [apply Hpipe; right; eauto|rewrite Esl; apply (Claim x _ m0 bm E)].
+        -- left. exists x. rewrite Hc', pushes_app. apply in_or_app. right. exact Hx.
+    + rewrite (Ho u Hn0), (Hto u Hn0). split; [exact D3|]. split; [exact D4|]. destruct D5 as [D5|D5]; [left; exact D5|right; apply Pg; exact D5].
+  - intros u w H. discriminate H.
+Qed.
